@@ -403,12 +403,20 @@ func writeInFlight(id string, seed uint64) runner.Result {
 // firstCalls: the newly issued RPC itself begins in an unusual but legal way: its first send fails
 // locally (the encoder rejects the message: nothing is written), and then it receives from a handler
 // that speaks first. The RPC must still reach its handler and complete, and the probe after it too.
-var firstCallShapes = []struct{ name, client, handler string }{
-	{"failed-send-then-recv", "mrhR", "sR"},
-	{"failed-sends-then-recv-send", "mmrshR", "srR"},
-	{"recv-first-control", "rhR", "sR"},
-	{"failed-send-then-halfclose", "mhR", "Rs"},
-	{"send-failed-send-recv", "smrhR", "rsR"},
+var firstCallShapes = []struct {
+	name, client, handler string
+	rendezvous            bool
+}{
+	{"failed-send-then-recv", "mrhR", "sR", false},
+	{"failed-sends-then-recv-send", "mmrshR", "srR", false},
+	{"recv-first-control", "rhR", "sR", false},
+	{"failed-send-then-halfclose", "mhR", "Rs", false},
+	{"send-failed-send-recv", "smrhR", "rsR", false},
+	// the handler has seen enough after the first message, answers and returns; the client does what a
+	// generated client-streaming stub does: all its sends, the half-close, then the receive
+	{"handler-returns-early-rendezvous", "sssshR", "rs", true},
+	{"handler-returns-early-no-answer-rendezvous", "ssshR", "r", true},
+	{"handler-returns-early-buffered", "sssshR", "rs", false},
 }
 
 func firstCalls(id string, seed uint64, shape int) runner.Result {
@@ -417,10 +425,15 @@ func firstCalls(id string, seed uint64, shape int) runner.Result {
 	if r.Intn(2) == 0 {
 		cfg.Client.SoftCancel, cfg.Server.SoftCancel = true, true
 	}
-	if cfg.Net.Cap == 0 {
+	sh := firstCallShapes[shape]
+	if cfg.Net.Cap == 0 && !sh.rendezvous {
 		cfg.Net.Cap = -1
 	}
-	sh := firstCallShapes[shape]
+	if sh.rendezvous {
+		// a transport without any buffering of its own (net.Pipe): a write completes when the peer reads it
+		cfg.Net.Cap = 0
+		cfg.Desc = strings.Replace(cfg.Desc, "cap=", "cap=0 was=", 1)
+	}
 	acts := func(t string) (out []prog.Act) {
 		for _, c := range []byte(t) {
 			out = append(out, prog.Act{Op: c, Size: 5 + r.Intn(40)})
@@ -446,7 +459,7 @@ func firstCalls(id string, seed uint64, shape int) runner.Result {
 	closed := rig.IsClosed(x.Rig.Conn.Closed())
 	key := "first-calls:" + sh.name
 	if st != "ready" {
-		return runner.Violation(id, key+":rpc-never-completes", "the newly issued RPC did not complete although nothing but its own failed local send preceded the receive (connection closed="+fmt.Sprint(closed)+")\nprogram: "+hist+"\nblocked goroutines in drpc:\n"+census.Dump(census.InDRPC(snap)))
+		return runner.Violation(id, key+":rpc-never-completes", "the newly issued RPC did not complete although both programs end by themselves (connection closed="+fmt.Sprint(closed)+")\nprogram: "+hist+"\nblocked goroutines in drpc:\n"+census.Dump(census.InDRPC(snap)))
 	}
 	if !closed && !l.HandlerRan {
 		return runner.Violation(id, key+":handler-never-ran", "the client's calls returned but the RPC never reached its handler\nprogram: "+hist)
@@ -497,7 +510,7 @@ func main() {
 	runner.Main(runner.Check{
 		Property: "C06",
 		Level:    "exploration",
-		Rule:     "one case = one program: 1-2 RPCs drawn from clean shapes and five early-ending kinds (client cancel / close at a seeded position, client close after half-close without draining, handler error / early return at a seeded position) x configuration cell (split, writer buffer, cancel mode, transport capacity, chunkers) x optional soft cancel landing while the client goroutine is parked at one of 12 internal points (incl. inside the decode of a received message) (before the semaphore, after stream creation, between metadata/invoke/message writes, ...), optionally one message that the peer's decoder rejects; followed by a tagged unary probe. A first-calls family makes the newly issued RPC itself begin unusually (its first send is rejected by its own encoder, then it receives from a handler that speaks first). A second family cancels an RPC that is queued behind a soft-cancelled stream whose cancel packet is parked in the transport. Non-trivial: every case whose workload ended on both sides. Distinct: by configuration and program text.",
+		Rule:     "one case = one program: 1-2 RPCs drawn from clean shapes and five early-ending kinds (client cancel / close at a seeded position, client close after half-close without draining, handler error / early return at a seeded position) x configuration cell (split, writer buffer, cancel mode, transport capacity, chunkers) x optional soft cancel landing while the client goroutine is parked at one of 12 internal points (incl. inside the decode of a received message) (before the semaphore, after stream creation, between metadata/invoke/message writes, ...), optionally one message that the peer's decoder rejects; followed by a tagged unary probe. A first-calls family makes the newly issued RPC itself unusual: its first send is rejected by its own encoder and then it receives from a handler that speaks first; or its handler returns after the first message while the client sends everything before it receives, also on a transport without buffering (capacity 0). A second family cancels an RPC that is queued behind a soft-cancelled stream whose cancel packet is parked in the transport. Non-trivial: every case whose workload ended on both sides. Distinct: by configuration and program text.",
 		Assumptions: []string{
 			"programs that deadlock by construction (both sides waiting to receive) are rejected by an abstract simulation before they run",
 			"if the workload itself never ends (client call or handler still blocked at quiescence) the case is inconclusive for C06",
